@@ -263,7 +263,7 @@ impl Prop for C03 {
     }
     fn cases(&self, tier: Tier) -> usize {
         match tier {
-            Tier::Quick => 1200,
+            Tier::Quick => 3000,
             Tier::Thorough => 20000,
         }
     }
